@@ -80,6 +80,11 @@ def run(ctx):
 
 
 def check_cfg(ctx, fx, cfg):
+    # R12.5 (shared with C01) the receiving side adds nothing to the capacity: a loop takes a payload out of the mailbox
+    # at one site and dispatches it before it takes the next — a look-ahead slot un-parks one more waiting sender while the
+    # actor has not taken up the work
+    from props import c01
+    core.shared(ctx, "R12.5", c01.check_dequeue_discipline, ctx, fx, cfg, "R12.5", {"L8"})
     subs = chan.submit_closures(fx)
     ctors = chan.constructors(fx)
     # R12.1 forcing closures
